@@ -13,6 +13,7 @@ import (
 	"fmt"
 	"math"
 	"math/rand"
+	"os"
 	"path/filepath"
 	"sort"
 	"strings"
@@ -44,17 +45,36 @@ type BanOp struct {
 	AltSpelling []bool `json:",omitempty"`
 	Calls       int    `json:",omitempty"`
 	Repeat      bool   `json:",omitempty"` // honest: one call re-requests an earlier hash
+	// HangUp[i] (offend only; absent = 0): Hosts[i] closes its connection
+	// after its invalid block was written completely: 1 = at once, n > 1 = n
+	// milliseconds later.
+	HangUp []int `json:",omitempty"`
+	// Before[i] (offend only; absent = 0): Hosts[i] sends that many other
+	// valid blocks in front of its invalid block.
+	Before []int `json:",omitempty"`
+	// Lapse (restart only): ban records that have run out by themselves,
+	// written into the ban database while no client runs on it (see
+	// lapsed.go). For a host that is banned at that moment this is its ban
+	// lapsing: the record is replaced by one whose expiry lies in the past.
+	Lapse []LapsedRec `json:",omitempty"`
 }
 
 // BanPlan is one ban-history scenario: a pure function of (seed, k); the
 // first NumFixedBanPlans plans do not depend on the seed at all.
 type BanPlan struct {
-	Seed      int64
-	K         int
-	Fixed     bool
-	Offenders int    // hosts 0..Offenders-1 misbehave when told to
-	Honest    int    // hosts Offenders.. never do
-	TwoPorts  []bool // per offender: a second simulated peer listens on another port of the same IP
+	Seed   int64
+	K      int
+	Fixed  bool
+	Family string `json:",omitempty"` // "" = ban-history, "lapsed" = lapsed-ban family (lapsed.go), "hangup" (hangup.go)
+	// KeepGoing: the steps go on after a violation (the scenario measures a
+	// share over many independent offenders).
+	KeepGoing bool `json:",omitempty"`
+	// Lapsed: ban records that ran out by themselves, present in the ban
+	// database BEFORE the client is started for the first time.
+	Lapsed    []LapsedRec `json:",omitempty"`
+	Offenders int         // hosts 0..Offenders-1 misbehave when told to
+	Honest    int         // hosts Offenders.. never do
+	TwoPorts  []bool      // per offender: a second simulated peer listens on another port of the same IP
 	// Layout / Addrs: where the hosts live (see addrs.go): IPv4, IPv6 inside
 	// one /64 or in different /64s, IPv4 told to the client as ::ffff:a.b.c.d.
 	Layout   string
@@ -282,7 +302,7 @@ func (p BanPlan) Describe() string {
 		case "offend":
 			var s []string
 			for i, h := range o.Hosts {
-				s = append(s, fmt.Sprintf("%d:%s", h, o.Kinds[i]))
+				s = append(s, fmt.Sprintf("%d:%s", h, Step{K: o.Kinds[i], HangUp: hangUpOf(o, i), Before: beforeOf(o, i)}))
 			}
 			ops = append(ops, "offend("+strings.Join(s, ",")+")")
 		case "unban":
@@ -303,6 +323,12 @@ func (p BanPlan) Describe() string {
 			ops = append(ops, "unban("+strings.Join(s, ",")+")")
 		case "honest":
 			ops = append(ops, fmt.Sprintf("honest(%d)", o.Calls))
+		case "restart":
+			if len(o.Lapse) > 0 {
+				ops = append(ops, "restart(lapse "+describeLapsed(o.Lapse)+")")
+			} else {
+				ops = append(ops, o.Op)
+			}
 		default:
 			ops = append(ops, o.Op)
 		}
@@ -317,7 +343,14 @@ func (p BanPlan) Describe() string {
 	for i := 0; i < p.Offenders && i < len(p.Addrs); i++ {
 		ok = append(ok, p.Addrs[i].Kind())
 	}
-	return fmt.Sprintf("ban-history offenders=%d(two-ports=%d;%s) honest=%d addrs=%s(%s) [%s]", p.Offenders, two, strings.Join(ok, ","), p.Honest,
+	name := "ban-history"
+	if p.Family == "hangup" {
+		name = "hang-up-after-invalid-block"
+	}
+	if p.Family == "lapsed" {
+		name = "lapsed-ban before-start=" + describeLapsed(p.Lapsed)
+	}
+	return fmt.Sprintf("%s offenders=%d(two-ports=%d;%s) honest=%d addrs=%s(%s) [%s]", name, p.Offenders, two, strings.Join(ok, ","), p.Honest,
 		p.Layout, describeAddrs(p.Addrs), strings.Join(ops, " "))
 }
 
@@ -337,6 +370,11 @@ type banHost struct {
 	EverOffended int64 // event number of the first invalid answer (0: none)
 	lastBad      *Answer
 	lastHist     string
+	// Lapsed: the host's ban record is one that ran out by itself (written
+	// while no client ran) and the host has not offended since; lastLapsed:
+	// the lapsed record the host had when it last offended (nil: none).
+	Lapsed     *LapsedRec `json:",omitempty"`
+	lastLapsed *LapsedRec
 	// neighbourUnbanned: UnbanPeer was called for ANOTHER host inside this
 	// host's /64 while this one was banned (whether that lifts this host's
 	// ban is not decided by the property: not asserted, only counted).
@@ -357,6 +395,21 @@ func (h *banHost) told(addr string) string {
 		return h.alt(addr)
 	}
 	return addr
+}
+
+// hangUpOf is op.HangUp[i] (0 when absent).
+func hangUpOf(op BanOp, i int) int {
+	if i < len(op.HangUp) {
+		return op.HangUp[i]
+	}
+	return 0
+}
+
+func beforeOf(op BanOp, i int) int {
+	if i < len(op.Before) {
+		return op.Before[i]
+	}
+	return 0
 }
 
 // shape normalises a history for signatures and marks: kinds are dropped.
@@ -392,12 +445,23 @@ type banObs struct {
 
 // BanHistScenario runs ban-history scenario k in this process.
 func BanHistScenario(seed int64, k int, res *l2.Result) {
-	plan := MakeBanPlan(seed, k)
-	res.Name = fmt.Sprintf("c06-banhist-%d", k)
+	runBanPlan(MakeBanPlan(seed, k), "banhist", res)
+}
+
+// LapsedBanScenario runs scenario k of the lapsed-ban family (lapsed.go): the
+// same runner and the same oracle over histories that contain ban records
+// which ran out by themselves.
+func LapsedBanScenario(seed int64, k int, res *l2.Result) {
+	runBanPlan(MakeLapsedPlan(seed, k), "lapsed", res)
+}
+
+func runBanPlan(plan BanPlan, fam string, res *l2.Result) {
+	k := plan.K
+	res.Name = fmt.Sprintf("c06-%s-%d", fam, k)
 	res.Fingerprint = plan.Describe()
-	res.Count("banhist_scenarios", 1)
+	res.Count(fam+"_scenarios", 1)
 	if plan.Fixed {
-		res.Count("banhist_fixed_scenarios", 1)
+		res.Count(fam+"_fixed_scenarios", 1)
 	}
 
 	w := l2.NewWorld(l2.Config{Seed: plan.Seed, Preset: plan.Preset, Interval: 8, SpacingSec: 4, GenesisAgo: 2 * time.Hour})
@@ -455,11 +519,11 @@ func BanHistScenario(seed int64, k int, res *l2.Result) {
 		hostOf[len(w.Peers)-1] = hi
 		hosts[hi].Ports = append(hosts[hi].Ports, addr)
 	}
-	armed := map[int]Kind{}
+	armed := map[int]Step{}
 	d.nextFn = func(peer int, _ streamKey) Step {
-		if kd, ok := armed[hostOf[peer]]; ok {
+		if st, ok := armed[hostOf[peer]]; ok {
 			delete(armed, hostOf[peer])
-			return Step{K: kd}
+			return st
 		}
 		return hon()
 	}
@@ -501,7 +565,31 @@ func BanHistScenario(seed int64, k int, res *l2.Result) {
 		}
 		return a
 	}
-	if err := w.StartClient(activeAddrs(), l2.ClientOpts{}); err != nil {
+	// Ban records that ran out before this client ever ran: written into the
+	// database file the client is about to open, through the exported banman
+	// API, while nothing else has it open.
+	startOpts := l2.ClientOpts{}
+	if len(plan.Lapsed) > 0 {
+		dir := filepath.Join(l2.Scratch(), fmt.Sprintf("c06-lapsed-%d-%d", plan.Seed, time.Now().UnixNano()))
+		if err := os.MkdirAll(dir, 0o755); err != nil {
+			res.Inconcl("cannot create the data directory: " + err.Error())
+			return
+		}
+		w.Dir = dir
+		db, err := walletdb.Create("bdb", filepath.Join(dir, "neutrino.db"), true, 10*time.Second, false)
+		if err != nil {
+			res.Inconcl("cannot create the database: " + err.Error())
+			return
+		}
+		err = writeLapsed(db, hosts, plan.Lapsed, w.Log, res, "before-start")
+		_ = db.Close()
+		if err != nil {
+			res.Inconcl("cannot write the lapsed ban records (precondition): " + err.Error())
+			return
+		}
+		startOpts.Dir = dir
+	}
+	if err := w.StartClient(activeAddrs(), startOpts); err != nil {
 		res.Inconcl("client start failed: " + err.Error())
 		return
 	}
@@ -511,7 +599,8 @@ func BanHistScenario(seed int64, k int, res *l2.Result) {
 		_, _ = w.StopClient(60 * time.Second)
 		return
 	}
-	if !l2.WaitFor(90*time.Second, func() bool { return w.SyncedTo(tip) }) {
+	synced := l2.WaitFor(90*time.Second, func() bool { return w.SyncedTo(tip) })
+	if !synced && len(plan.Lapsed) == 0 {
 		res.Inconcl("initial sync did not complete within 90 s")
 		_, _ = w.StopClient(60 * time.Second)
 		return
@@ -570,7 +659,18 @@ func BanHistScenario(seed int64, k int, res *l2.Result) {
 				fmt.Sprintf("the ban store answers banned=%v for %s and banned=%v for %s, two spellings of the address of host %d (checkpoint %q, history %s)",
 					st.Banned, h.Ports[0], stAlt.Banned, h.alt(h.Ports[0]), h.Idx, where, shape(h.Hist)), wit())
 		}
+		if h.Lapsed != nil && h.Banned == "no" && !st.Banned {
+			res.Count("lapsed_record_host_states_confirmed_not_banned", 1)
+		}
 		switch {
+		case h.Banned == "no" && st.Banned && h.Lapsed != nil && !bystander:
+			// The only record of the host is a ban that ran out and the host
+			// sent nothing invalid since: nothing bans it.
+			violated = true
+			res.Violate(evid.Sig("c06/lapsed-ban-reported-in-force", "reason:"+strings.ReplaceAll(banman.Reason(h.Lapsed.Reason).String(), " ", "-"), "lapsed:"+agoClass(h.Lapsed.AgoSec), "addr:"+h.A.Kind(), where),
+				fmt.Sprintf("host %d sent nothing invalid; the only record the ban store had for it was a ban (reason %q) that ran out %s before the record was written (%s), yet the ban store reports it banned (reason %q, expiry %s) at checkpoint %q. History: %s",
+					h.Idx, banman.Reason(h.Lapsed.Reason).String(), time.Duration(h.Lapsed.AgoSec)*time.Second, h.Lapsed.When, st.Reason.String(), st.Expiration.Format(time.RFC3339), where, shape(h.Hist)), wit())
+			h.Banned = "unknown"
 		case h.Banned == "yes" && !invalidBan && !st.Banned && h.neighbourUnbanned:
 			// UnbanPeer was called for another host of this /64 meanwhile.
 			res.Count("banhist_ban_gone_after_unban_of_a_host_in_the_same_64", 1)
@@ -582,13 +682,26 @@ func BanHistScenario(seed int64, k int, res *l2.Result) {
 			}
 			a := h.lastBad
 			violated = true
-			res.Violate(evid.Sig("c06/invalid-block-sender-not-banned", a.Step, witStr(w, a.Hash), how, "history:"+h.lastHist, "addr:"+h.A.Kind(), where),
-				fmt.Sprintf("host %d (%s) answered the request for block %s (height %d) with a block carrying that header but differing from it (%s; btcd sanity: %q, commitment: %q) while the call was active, and is %s at checkpoint %q (ban store record: %v). History of the host before this block: %s",
-					h.Idx, w.Peers[a.Peer].Addr, a.HashStr, a.Height, a.Step, firstBad(a).SanityErr, firstBad(a).CommitErr, how, where, st.Banned, h.lastHist), wit())
+			sig := []string{"c06/invalid-block-sender-not-banned", a.Step, witStr(w, a.Hash), how, "history:" + h.lastHist, "addr:" + h.A.Kind(), where}
+			note := ""
+			if l := h.lastLapsed; l != nil {
+				// The relation between the old ban's end and now is part of
+				// the shape of the failing input.
+				sig = append(sig, "lapsed:"+agoClass(l.AgoSec))
+				note = fmt.Sprintf(" (the record the host had before: a ban for %q that had run out %s before it was written %s)",
+					banman.Reason(l.Reason).String(), time.Duration(l.AgoSec)*time.Second, l.When)
+			}
+			res.Violate(evid.Sig(sig...),
+				fmt.Sprintf("host %d (%s) answered the request for block %s (height %d) with a block carrying that header but differing from it (%s; btcd sanity: %q, commitment: %q) while the call was active, and is %s at checkpoint %q (ban store record: %v). History of the host before this block: %s%s",
+					h.Idx, w.Peers[a.Peer].Addr, a.HashStr, a.Height, a.Step, firstBad(a).SanityErr, firstBad(a).CommitErr, how, where, st.Banned, h.lastHist, note), wit())
 			h.Banned = "unknown"
 		case h.Banned == "yes":
 			res.Count("banhist_bans_confirmed_"+where, 1)
 			res.Count("banhist_bans_confirmed_addr_"+h.A.Kind(), 1)
+			if l := h.lastLapsed; l != nil {
+				res.Count("lapsed_bans_confirmed_for_a_host_with_a_lapsed_record", 1)
+				res.Count("lapsed_bans_confirmed_lapsed_"+agoClass(l.AgoSec), 1)
+			}
 		case bystander:
 		case h.Banned == "no" && invalidBan && h.EverOffended == 0:
 			violated = true
@@ -612,9 +725,15 @@ func BanHistScenario(seed int64, k int, res *l2.Result) {
 			}
 		}
 	}
+	// only: when set, the hosts a checkpoint looks at (every lookup is a
+	// synchronous write transaction of the database).
+	var only map[int]bool
 	checkpoint := func(where string) {
 		res.Count("banhist_checkpoints", 1)
 		for _, h := range hosts {
+			if only != nil && !only[h.Idx] {
+				continue
+			}
 			ipn, err := banman.ParseIPNet(h.Ports[0], nil)
 			if err != nil {
 				continue
@@ -644,10 +763,25 @@ func BanHistScenario(seed int64, k int, res *l2.Result) {
 		for _, a := range h.Ports {
 			a := a
 			l2.WaitFor(10*time.Second, func() bool { return w.Svc.PeerByAddr(a) == nil })
-			if !l2.WaitFor(30*time.Second, func() bool { return w.Net.OpenConns(a) == 0 }) {
+			// The connections that exist NOW (the one the invalid block came
+			// over among them) must each get closed. The client keeps dialling
+			// a banned persistent peer and drops every new connection before
+			// the handshake: under load those short-lived connections overlap,
+			// so "no connection open at a sampling instant" would be decided
+			// by the scheduler; later connections are the subject of the
+			// handshake rule below.
+			recs := w.Net.ConnRecs(a)
+			if !l2.WaitFor(60*time.Second, func() bool {
+				for _, cr := range recs {
+					if !cr.C.Dead() {
+						return false
+					}
+				}
+				return true
+			}) {
 				violated = true
 				res.Violate(evid.Sig("c06/banned-peer-connection-stays-open", "ban-history"),
-					fmt.Sprintf("host %d is banned but a connection to %s was continuously open for 30 s", h.Idx, a), wit())
+					fmt.Sprintf("host %d is banned but a connection to %s that was open when the ban was observed was still open 60 s later", h.Idx, a), wit())
 			}
 		}
 		h.Spans = append(h.Spans, [2]int64{w.Log.Add("client", "ev", "c06-banned", fmt.Sprintf("host=%d observed banned and disconnected", h.Idx)), math.MaxInt64})
@@ -683,9 +817,48 @@ func BanHistScenario(seed int64, k int, res *l2.Result) {
 		return false
 	}
 
+	// connected waits until every host the model says is not banned has a
+	// connection again (precondition of the steps that follow; a host whose
+	// ban ran out is dialled like any other).
+	connected := func(where string) {
+		for _, h := range hosts {
+			if h.Banned != "no" {
+				continue
+			}
+			a := h.addr()
+			if !l2.WaitFor(60*time.Second, func() bool { return w.Svc.PeerByAddr(a) != nil }) {
+				if os.Getenv("C06_DEBUG") != "" {
+					fmt.Fprintf(os.Stderr, "NOT CONNECTED host=%d addr=%s isbanned=%v connected=%d hist=%v\n", h.Idx, a, w.Svc.IsBanned(a), w.Svc.ConnectedCount(), h.Hist)
+					for _, e := range w.Log.Tail(150) {
+						fmt.Fprintf(os.Stderr, "%v\n", e)
+					}
+				}
+				abort(fmt.Sprintf("a host the client has no reason to refuse was not connected within 60 s (%s; precondition of the next step)", where))
+				return
+			}
+			if h.Lapsed != nil {
+				res.Count("lapsed_record_hosts_connected_"+where, 1)
+			}
+		}
+		time.Sleep(50 * time.Millisecond) // steering: the query workers of the new connections
+	}
+	if len(plan.Lapsed) > 0 {
+		// The ban state of the hosts with old records is compared whether or
+		// not the client got as far as the steps need it to.
+		if synced {
+			connected("after-start")
+		}
+		checkpoint("after-start")
+		if !synced {
+			res.Inconcl("initial sync did not complete within 90 s")
+			_, _ = w.StopClient(60 * time.Second)
+			return
+		}
+	}
+
 	group := 0
 	for oi, op := range plan.Ops {
-		if aborted != "" || violated {
+		if aborted != "" || violated && !plan.KeepGoing {
 			break
 		}
 		switch op.Op {
@@ -705,10 +878,10 @@ func BanHistScenario(seed int64, k int, res *l2.Result) {
 			res.Count("banhist_honest_rounds", 1)
 
 		case "offend":
-			pending := map[int]Kind{}
+			pending := map[int]Step{}
 			for i, hi := range op.Hosts {
 				if hosts[hi].Banned == "no" {
-					pending[hi] = op.Kinds[i]
+					pending[hi] = Step{K: op.Kinds[i], HangUp: hangUpOf(op, i), Before: beforeOf(op, i)}
 				}
 			}
 			delivered := map[int]bool{}
@@ -761,6 +934,7 @@ func BanHistScenario(seed int64, k int, res *l2.Result) {
 						h.Hist = append(h.Hist, "offend:"+a.Step)
 						h.Banned = "yes"
 						h.neighbourUnbanned = false
+						h.lastLapsed, h.Lapsed = h.Lapsed, nil
 						res.Count("banhist_invalid_blocks_delivered", 1)
 						res.Count("banhist_invalid_blocks_from_addr_"+h.A.Kind(), 1)
 						nb := "alone-in-its-net"
@@ -777,8 +951,20 @@ func BanHistScenario(seed int64, k int, res *l2.Result) {
 							}
 							res.Nontrivial = true
 						}
-						res.Mark(fmt.Sprintf("banhist|%s|wit=%v|history=%s|%s|hosts=%d+%d|addr=%s|%s", a.Step, witStr(w, a.Hash) == "block-with-witness",
-							h.lastHist, port, plan.Offenders, plan.Honest, h.A.Kind(), nb))
+						lapsed := ""
+						if l := h.lastLapsed; l != nil {
+							lapsed = fmt.Sprintf("|lapsed=%s,reason=%d,%s", agoClass(l.AgoSec), l.Reason, l.When)
+							res.Count("lapsed_offences_by_a_host_whose_ban_had_run_out", 1)
+							res.Count("lapsed_offences_ban_ran_out_"+agoClass(l.AgoSec)+"_ago", 1)
+							res.Count("lapsed_offences_record_written_"+l.When, 1)
+							res.Count(fmt.Sprintf("lapsed_offences_old_reason_%d", l.Reason), 1)
+							if l.Own {
+								res.Count("lapsed_offences_after_the_clients_own_ban_ran_out", 1)
+							}
+							res.Nontrivial = true
+						}
+						res.Mark(fmt.Sprintf("banhist|%s|wit=%v|history=%s|%s|hosts=%d+%d|addr=%s|%s%s", a.Step, witStr(w, a.Hash) == "block-with-witness",
+							h.lastHist, port, plan.Offenders, plan.Honest, h.A.Kind(), nb, lapsed))
 					case a.Class == "bad" || a.Class == "senderr":
 						// Written after the call had ended, or to a closed
 						// connection: the client may or may not have seen it.
@@ -797,14 +983,41 @@ func BanHistScenario(seed int64, k int, res *l2.Result) {
 			}
 			// The calls have returned: the blocks were handled. Steering
 			// only: the store is read right after.
+			steer := 5 * time.Second
+			if plan.KeepGoing {
+				steer = 2 * time.Second
+			}
 			for hi := range delivered {
 				a := hosts[hi].addr()
-				l2.WaitFor(5*time.Second, func() bool { return w.Svc.IsBanned(a) })
+				l2.WaitFor(steer, func() bool { return w.Svc.IsBanned(a) })
+			}
+			if plan.Family == "hangup" {
+				// The offenders of this round and the honest hosts.
+				only = map[int]bool{}
+				for hi := range delivered {
+					only[hi] = true
+				}
+				for hi := plan.Offenders; hi < nHosts; hi++ {
+					only[hi] = true
+				}
 			}
 			checkpoint("after-offence")
+			only = nil
 			for hi := range delivered {
-				if hosts[hi].Banned == "yes" {
-					gone(hosts[hi])
+				h := hosts[hi]
+				if a := h.lastBad; a != nil && a.HungUp != 0 {
+					// The invalid block was written completely, then the host
+					// closed its connection.
+					mode := a.Step[strings.Index(a.Step, "+")+1:]
+					res.Count("hangup_offenders_"+mode, 1)
+					if h.Banned == "yes" {
+						res.Count("hangup_offenders_"+mode+"_banned", 1)
+					} else {
+						res.Count("hangup_offenders_"+mode+"_not_banned", 1)
+					}
+				}
+				if h.Banned == "yes" {
+					gone(h)
 				}
 			}
 
@@ -861,7 +1074,36 @@ func BanHistScenario(seed int64, k int, res *l2.Result) {
 			time.Sleep(50 * time.Millisecond) // steering: the query worker of the new connection
 
 		case "restart":
-			if err := w.RestartClient(activeAddrs(), l2.ClientOpts{}, 90*time.Second); err != nil {
+			if len(op.Lapse) > 0 {
+				// Time passes while the client is down: bans run out.
+				if ok, _ := w.StopClient(90 * time.Second); !ok {
+					abort("restart failed: Stop did not return within 90 s")
+					break
+				}
+				w.CloseDB()
+				db, err := walletdb.Open("bdb", filepath.Join(w.Dir, "neutrino.db"), true, 10*time.Second, false)
+				if err != nil {
+					abort("cannot reopen the database between two runs: " + err.Error())
+					break
+				}
+				for _, rc := range op.Lapse {
+					for _, g := range sharers(rc.Host) {
+						if g.Banned == "yes" {
+							g.neighbourUnbanned = true
+						}
+					}
+				}
+				err = writeLapsed(db, hosts, op.Lapse, w.Log, res, "at-restart")
+				_ = db.Close()
+				if err != nil {
+					abort("cannot write the lapsed ban records (precondition): " + err.Error())
+					break
+				}
+				if err := w.StartClient(activeAddrs(), l2.ClientOpts{Dir: w.Dir}); err != nil {
+					abort("restart failed: " + err.Error())
+					break
+				}
+			} else if err := w.RestartClient(activeAddrs(), l2.ClientOpts{}, 90*time.Second); err != nil {
 				abort("restart failed: " + err.Error())
 				break
 			}
@@ -883,6 +1125,9 @@ func BanHistScenario(seed int64, k int, res *l2.Result) {
 			l2.WaitFor(10*time.Second, func() bool { return int(w.Svc.ConnectedCount()) >= want })
 			fetched = nil
 			res.Count("banhist_restarts", 1)
+			if plan.Family == "lapsed" {
+				connected("after-restart")
+			}
 			checkpoint("after-restart")
 		}
 	}
